@@ -6,6 +6,7 @@ open ArmiVerif ArmiVerif.Proto ArmiVerif.AsciiMap
 Line protocol for the ascii-map model.
   read  KIND [[t,t,..],[..],..]      text lines top to bottom, tokens
   write KIND [i:j:tok,...]           indexed contents (insertion order)
+  gridcontents KIND T|F [[..],..]    what GridBlueprint keeps of a lattice map (T: full domain; Cartesian full maps are centred)
 KIND = cart | third | full | tips.  Answers:
   read  -> reject | labels=[i:j:tok,..sorted] offsets=[..] slot=N dims=maxCol,maxLine,ijMax,offCorner
   write -> reject | lines=[[..],..] offsets=[..] slot=N printable=T|F back=reject|[i:j:tok,..sorted]
@@ -34,6 +35,11 @@ def answer : List String → String
             " slot=" ++ toString m.slot ++ " dims=" ++ toString m.maxCol ++ "," ++ toString m.maxLine ++ "," ++
             toString m.ijMax ++ "," ++ toString m.offCorner
       | _, _ => "bad-op"
+  | ["gridcontents", k, full, lines] => match parseKind? k, parseBool? full, parseList? (parseList? some) lines with
+      | some k, some full, some lines => match readAscii k lines with
+        | none => "reject"
+        | some m => showLabels (if k == .cart && full then cartCentre m.labels else dataOf m.labels)
+      | _, _, _ => "bad-op"
   | ["write", k, labels] => match parseKind? k, parseList? parseLabel? labels with
       | some k, some labels => match gridContentsToAscii k labels with
         | none => "reject"
